@@ -875,6 +875,31 @@ def v_union(g: Gen, left: TV):
     for _ in range(r.randint(0, 2)):
         nxt = r.choice([g.v_filter, lambda t: g.v_mutate(t, "ewise")])(cur)
         cur = nxt or cur
+    if r.random() < 0.3 and len(cur.visible) > 1:
+        # replace a column of the right side by a computed one of the same name: the old column stays in scope,
+        # hidden, under the same label (the union must pick the visible one)
+        cands = [(n, c) for n, c in cur.visible if cur.scope[c].cls in ("int", "string", "bool", "float") and c not in cur.keys]
+        if cands:
+            n0, c0 = r.choice(cands)
+            e = g.ewise(cur, cur.scope[c0].cls, 2)
+            tmpn = n0 + "_new"
+            if tmpn not in cur.names() and e is not None:
+                t1 = g.derive(cur)
+                cid = g.new_cid()
+                t1.scope[cid] = ColInfo(cid, cur.scope[c0].cls, True, [], kind="ewise")
+                t1.visible = list(cur.visible) + [(tmpn, cid)]
+                g.stmts.append(dict(id=t1.tid, op="mutate", src=cur.tid, cols=[[tmpn, e]]))
+                g.register(t1)
+                t2 = g.derive(t1)
+                t2.visible = [(n, c) for n, c in t1.visible if c != c0]
+                g.stmts.append(dict(id=t2.tid, op="drop", src=t1.tid, cols=[n0]))
+                g.register(t2)
+                t3 = g.derive(t2)
+                t3.visible = [((n0 if c == cid else n), c) for n, c in t2.visible]
+                g.stmts.append(dict(id=t3.tid, op="rename", src=t2.tid, map=[[tmpn, n0]]))
+                g.register(t3)
+                g.features.add("union_hidden_same_label")
+                cur = t3
     # restore exactly the left's visible names (mutate may have added columns)
     want = left.names()
     have = dict((n, c) for n, c in cur.visible)
@@ -1127,6 +1152,24 @@ def _scenario(seed: int, kind: str):
             last = g.fresh_t()
             S(id=last, op="ungroup", src=m)
         S(id="x1", op="export", src=last, target="polars", ordered=False)
+    elif kind == "scen_join_suffix":
+        # automatic suffixing: a non-key name clashes (so every right column gets the suffix) and the suffixed
+        # name of a right column already exists on the left, possibly for several counters
+        rname = "src1"
+        taken = r.randint(1, 3)
+        lcols = [("a", "int"), ("b_" + rname, "int")] + [("b_%s_%d" % (rname, i), "int") for i in range(1, taken)]
+        if r.random() < 0.5:
+            lcols.append(("a_" + rname, "string"))
+        a = table("src0", lcols)
+        b = table(rname, [("a", "int"), ("b", "int")] + ([("c", "string")] if r.random() < 0.5 else []))
+        j = g.fresh_t()
+        on = [{"fn": "equal", "args": [{"col": [a.tid, "id"]}, {"col": [b.tid, "id"]}]}]
+        S(id=j, op="join", src=a.tid, right=b.tid, on=on, how=r.choice(["inner", "left", "inner"]))
+        m = g.fresh_t()
+        S(id=m, op="mutate", src=j, cols=[["p_left", {"col": [a.tid, "b_" + rname]}], ["p_right", {"col": [b.tid, "b"]}]])
+        f = g.fresh_t()
+        S(id=f, op="arrange", src=m, by=[{"col": [a.tid, "id"]}])
+        S(id="x1", op="export", src=f, target="polars", ordered=True)
     elif kind == "scen_selfjoin_agg":
         # "join the aggregate back": a table joined with a summary of itself (through alias()); verbs after
         # the join use columns of the origin that the summary dropped
